@@ -3,7 +3,7 @@
    M = Model/C02.v (ExpressionEvaluator over the tables generated from the source),
    S = Spec/C02.v (ISO C). *)
 From Coq Require Import ZArith Bool String List.
-From CBI Require Import Lib.Data Lib.Res Gen.C02_tables Model.C02 Spec.C02 Proofs.C02 Proofs.C02s Proofs.C02l.
+From CBI Require Import Lib.Data Lib.Res Gen.C02_tables Model.C02 Spec.C02 Proofs.C02 Proofs.C02s Proofs.C02l Proofs.C02g.
 From CBI Require Model.C01 Spec.C01 Proofs.C01.
 Import ListNotations.
 Local Open Scope string_scope.
@@ -150,9 +150,59 @@ Theorem C02_skipped_elif_irrelevant :
 Proof. exact (conj Proofs.C01.attribution skipped_elif_step). Qed.
 Print Assumptions C02_skipped_elif_irrelevant.
 
+(* THE UNBOUNDED STATEMENTS (every expression tree: any size, any nesting depth).
+
+   [tokens dt 0 e] is the token sequence ISO C's grammar (6.5.3 - 6.5.15) assigns to the tree e:
+   operands written at the level the grammar requires, parenthesised exactly when their own level is
+   lower, explicit EParen nodes adding redundant parentheses anywhere.
+
+   Grammar soundness: M's precedence-climbing parser, run on those tokens with the fuel evaluate()
+   really uses, never runs out of fuel and yields the bottom-up value of the tree under M's own
+   operators ([meval]; defined for every tree whose constants M can read - no UB side condition). *)
+Theorem C02_grammar_sound :
+  forall defs e v, meval defs e = Some v -> evaluate (tokens (dt_expanded defs) 0 e) = OVal v.
+Proof. exact grammar_sound. Qed.
+Print Assumptions C02_grammar_sound.
+
+(* Evaluation, PARTIAL: whenever ISO C defines the value of e ([sem]: usual arithmetic conversions,
+   truncating division, 0/1 results, short-circuit && || and ?: whose unselected operand may divide
+   by zero, the type of ?: taken from both branches, constants in every base/suffix, character
+   constants, identifiers = 0, defined), M evaluates the tokens of e to exactly that value and type.
+   Missing from the full statement: [guard e], which excludes only trees containing a constant of
+   the known finding class (octal/hex/binary without u in [2^63, 2^64)); C02_literals_refuted shows
+   the guard is needed. *)
+Theorem C02_evaluation_partial :
+  forall defs e v, sem defs e = Some v -> guard e = true ->
+    evaluate (tokens (dt_expanded defs) 0 e) = OVal v.
+Proof. exact evaluation_ok. Qed.
+Print Assumptions C02_evaluation_partial.
+
+(* The same through IfNode.evaluate_for_platform, from the tokens as written in the source
+   (`defined X`, `defined(X)`), for every macro table env whose macros are not used as plain
+   identifiers in e (expansion proper is C03's subject). *)
+Theorem C02_evaluate_for_platform_partial :
+  forall env e v, ids_ok env e = true -> guard e = true -> sem (map fst env) e = Some v ->
+    evaluate_for_platform env (tokens dt_source 0 e) = OVal v.
+Proof. exact evaluate_for_platform_ok. Qed.
+Print Assumptions C02_evaluate_for_platform_partial.
+
 (* non-vacuity: 2 + 3 * 4 - 1 is 13, and -7 / 2 is -3 *)
 Example C02_nonvacuous :
   evaluate [num "2"; bop BAdd; num "3"; bop BMul; num "0x4uLL"; bop BSub; num "01"] = OVal (V 13 true) /\
   evaluate [uop UNeg; num "7"; bop BDiv; num "2"] = OVal (V (-3) false) /\
   lit_value "0x4uLL" = inr (V 4 true).
+Proof. vm_compute. repeat split; reflexivity. Qed.
+
+(* non-vacuity of the unbounded theorems: (defined(A) && -1 < 0u) || 010 / (1 ? 2 : 1 / 0) == 4
+   has a value in ISO C although it contains 1/0, meets the guards, and M computes that value *)
+Definition C02_example : expr :=
+  EBin BLor
+    (EParen (EBin BLand (EDefined "A" true) (EBin BLt (EUn UNeg (ELit "1" "")) (ELit "0" "u"))))
+    (EBin BEq (EBin BDiv (ELit "010" "") (EParen (ECond (ELit "1" "") (ELit "2" "") (EBin BDiv (ELit "1" "") (ELit "0" "")))))
+              (ELit "4" "")).
+Example C02_nonvacuous_unbounded :
+  sem ["A"] C02_example = Some (V 1 false) /\
+  guard C02_example = true /\ ids_ok [("A", [])] C02_example = true /\
+  evaluate_for_platform [("A", [])] (tokens dt_source 0 C02_example) = OVal (V 1 false) /\
+  List.length (tokens dt_source 0 C02_example) = 25%nat.
 Proof. vm_compute. repeat split; reflexivity. Qed.
